@@ -28,6 +28,7 @@ class Frame:
         self.depth = parent.depth + 1 if parent is not None else 0
         self.stack = parent.stack if parent is not None else frozenset()
         self.returns = []
+        self.return_marks = []      # (condition, start, end): returns[start:end] were made inside the then-branch of that ``if``
         self.yields = None
         self.yields_complete = True
         self.in_loop = parent.in_loop if parent is not None else 0
@@ -57,9 +58,25 @@ class Frame:
             return None
         if len(vals) == 1:
             return vals[0]
+        marks = getattr(self, 'return_marks', None) or []
+
+        def build(seq, lo, hi):
+            # the value returned on the paths that produced seq[lo:hi]; returns made inside the then-branch of an ``if``
+            # are selected by its condition, the ones after it by the negation (early return / if-else returning twice)
+            if hi - lo == 1:
+                return seq[lo]
+            for cond, s, e in marks:
+                if s == lo and lo < e < hi:
+                    tv, ev = build(seq, s, e), build(seq, e, hi)
+                    if same_value(tv, ev):
+                        return tv
+                    phi = Sym('phi', tv, ev)
+                    phi.cond = cond
+                    return phi
+            return merge_values(seq[lo:hi])
         if all(isinstance(v, tuple) for v in vals) and len({len(v) for v in vals}) == 1:
-            return tuple(merge_values([v[i] for v in vals]) for i in range(len(vals[0])))
-        return merge_values(vals)
+            return tuple(build([v[i] for v in vals], 0, len(vals)) for i in range(len(vals[0])))
+        return build(list(vals), 0, len(vals))
 
 
 def merge_values(vals):
@@ -327,6 +344,7 @@ class Interp(ExprMixin, CallMixin):
         sub = fr.child_env()
         sub.block = block
         sub.returns = fr.returns
+        sub.return_marks = fr.return_marks
         sub.yields = fr.yields
         sub.unrolled = getattr(fr, 'unrolled', 0)
         for k, v in list(sub.env.items()):
@@ -374,7 +392,10 @@ class Interp(ExprMixin, CallMixin):
         self.assume(cond, True, a)
         self.assume(cond, False, b)
         keys_before = self.key_snapshot()
+        n_ret = len(fr.returns)
         sa = self.exec_body(st.body, a)
+        if len(fr.returns) > n_ret:
+            fr.return_marks.append((cond, n_ret, len(fr.returns)))
         keys_a = self.key_changes(keys_before)
         # the else branch must not see keys that only the then branch defined (parser state is shared on the heap)
         after_then = {pid: dict(p.keys) for pid, (p, _) in self.key_snapshot().items()}
